@@ -109,6 +109,9 @@ type bkInterp struct {
 	collect  bool
 	problems []string
 	eff      *bkEffect
+	// prevPresent: per index, whether the previous object is an entry of it in the situation being evaluated
+	// (it is iff inserting an object in that situation enters it): decides the second half of Replace
+	prevPresent map[string]bool
 }
 
 type bkFrame struct {
@@ -401,6 +404,8 @@ func (x *bkInterp) exec(fr *bkFrame, stmts []ast.Stmt, depth int) bool {
 						x.assign(fr, o, vs.Values[i], token.DEFINE, nm.Pos())
 					} else if isIntType(o.Type()) {
 						fr.locals[o] = bkLin{}
+					} else if b, ok := o.Type().Underlying().(*types.Basic); ok && b.Kind() == types.Bool {
+						fr.locals[o] = bkLin{} // false
 					}
 				}
 			}
@@ -552,6 +557,35 @@ func (x *bkInterp) call(fr *bkFrame, call *ast.CallExpr, depth int) {
 			if f == "objs" {
 				return // the primary map
 			}
+			// which of the two objects the operation is about: the object arguments, or arguments derived from one
+			var objRoles []string
+			for _, a := range call.Args {
+				if id, ok := ast.Unparen(a).(*ast.Ident); ok {
+					if r, ok := fr.roles[fr.info.ObjectOf(id)]; ok {
+						objRoles = append(objRoles, r)
+					}
+				}
+			}
+			var as []string
+			for _, a := range call.Args {
+				as = append(as, x.canon(fr, a))
+			}
+			arg := strings.Join(as, ", ")
+			switch se.Sel.Name {
+			case "Replace":
+				// Replace(old…, new…): removes the old entry and, only if it was there, enters the new one
+				if len(objRoles) != 2 || objRoles[0] == objRoles[1] {
+					x.problem(call.Pos(), "Replace on index %s does not name one old and one new object", f)
+					return
+				}
+				if x.collect || objRoles[0] != "$prev" || x.prevPresent == nil || x.prevPresent[f] {
+					x.eff.ops = append(x.eff.ops, bkOp{Field: f, Sign: -1, Arg: objRoles[0], Role: objRoles[0], Pos: call.Pos()})
+				}
+				if x.collect || objRoles[0] != "$prev" || x.prevPresent == nil || x.prevPresent[f] {
+					x.eff.ops = append(x.eff.ops, bkOp{Field: f, Sign: +1, Arg: objRoles[1], Role: objRoles[1], Pos: call.Pos()})
+				}
+				return
+			}
 			sign := 0
 			switch se.Sel.Name {
 			case "Delete":
@@ -562,17 +596,18 @@ func (x *bkInterp) call(fr *bkFrame, call *ast.CallExpr, depth int) {
 				x.problem(call.Pos(), "operation %s on index %s is neither an insertion nor a removal", se.Sel.Name, f)
 				return
 			}
-			var as []string
-			for _, a := range call.Args {
-				as = append(as, x.canon(fr, a))
-			}
-			arg := strings.Join(as, ", ")
 			rs := rolesIn(arg)
 			if len(rs) != 1 {
 				x.problem(call.Pos(), "index operation %s.%s(%s) is not about exactly one of the two objects", f, se.Sel.Name, arg)
 				return
 			}
-			x.eff.ops = append(x.eff.ops, bkOp{Field: f, Sign: sign, Arg: arg, Role: rs[0], Pos: call.Pos()})
+			// removing an entry that is not there is a no-op of the containers (the previous object is an entry
+			// of the index iff inserting an object in its situation enters it)
+			if sign < 0 && rs[0] == "$prev" && !x.collect && x.prevPresent != nil && !x.prevPresent[f] {
+				return
+			}
+			// the entry is identified by the object; how its key is computed (rtreeItem) is R2.quantiser-agreement's business
+			x.eff.ops = append(x.eff.ops, bkOp{Field: f, Sign: sign, Arg: rs[0], Role: rs[0], Pos: call.Pos()})
 			return
 		}
 	}
@@ -776,6 +811,7 @@ func ruleDelta(c *Ctx) {
 	covered := map[string]bool{}
 	situations := 0
 	for om := 0; om < 1<<n; om++ {
+		x.prevPresent = nil
 		ins := evalSet(true, 0, om) // insertion alone
 		for _, f := range secondary {
 			if len(ins.counters[f]) > 0 || len(ins.opsOf(f, "")) > 0 {
@@ -787,9 +823,18 @@ func ruleDelta(c *Ctx) {
 		}
 		for pm := 0; pm < 1<<n; pm++ {
 			situations++
+			x.prevPresent = nil
+			insP := evalSet(true, 0, pm) // insertion of an object in the previous object's situation
+			x.prevPresent = map[string]bool{}
+			for _, f := range secondary {
+				for _, o := range insP.ops {
+					if o.Field == f && o.Sign > 0 {
+						x.prevPresent[f] = true
+					}
+				}
+			}
 			both := evalSet(false, pm, om)
 			dl := evalDel(pm)
-			insP := evalSet(true, 0, pm) // insertion of an object in the previous object's situation
 			for _, f := range secondary {
 				where := fmt.Sprintf("previous object: %s; new object: %s", describe(pm, "$prev"), describe(om, "$obj"))
 				if x.intField[f] {
